@@ -27,10 +27,24 @@ use crate::rng::{Fnv, Rng};
 pub struct C14Check;
 pub static C14: C14Check = C14Check;
 
-const BASE_URI: &str = "file:///trustsim-c14-nonexistent/";
+/// Documents live in a real (per worker process) scratch directory, so that file-watcher events can
+/// refer to files that exist on disk. The directory name never reaches a log line or a signature.
+fn base_dir() -> &'static std::path::PathBuf {
+    static DIR: std::sync::OnceLock<std::path::PathBuf> = std::sync::OnceLock::new();
+    DIR.get_or_init(|| {
+        let d = crate::framework::scratch_dir().join(format!("c14-{}", std::process::id()));
+        let _ = std::fs::remove_dir_all(&d);
+        let _ = std::fs::create_dir_all(&d);
+        d
+    })
+}
+
+fn path_of(d: u64) -> std::path::PathBuf {
+    base_dir().join(format!("doc{d}.st"))
+}
 
 fn uri_of(d: u64) -> String {
-    format!("{BASE_URI}doc{d}.st")
+    format!("file://{}", path_of(d).display())
 }
 
 // ---------------------------------------------------------------------------
@@ -896,6 +910,10 @@ impl Check for C14Check {
                         bufs[d] = None;
                     } else if r < 10 {
                         ops.push(json!({"k": "save", "d": d, "with_text": ops_rng.bool()}));
+                    } else if r < 13 {
+                        // the file watcher reports the file of an OPEN document (created / changed on disk with other
+                        // content): the editor's buffer stays the truth
+                        ops.push(json!({"k": "watched", "d": d, "type": ops_rng.range(1, 3), "disk": ops_rng.below(3)}));
                     } else if r < 18 {
                         ops.push(json!({"k": "query", "hl": ops_rng.below(1000), "rf": [ops_rng.below(1000), ops_rng.below(1000)]}));
                     } else {
@@ -1194,6 +1212,37 @@ impl Check for C14Check {
                             stats.log(&format!("{opi}:resync:{d}:{}", fx(&before)));
                         }
                     }
+                }
+                "watched" => {
+                    if !docs.get(&d).is_some_and(|e| e.open) {
+                        continue;
+                    }
+                    let disk_text = match op["disk"].as_u64().unwrap_or(0) {
+                        0 => "PROGRAM DiskOnly\nVAR\n  disk_counter : DINT;\nEND_VAR\ndisk_counter := disk_counter + 1;\nEND_PROGRAM\n",
+                        1 => "FUNCTION DiskFn : INT\nDiskFn := 1;\nEND_FUNCTION\n",
+                        _ => "",
+                    };
+                    let path = path_of(d);
+                    let _ = std::fs::write(&path, disk_text);
+                    let params = json!({"changes": [{"uri": uri, "type": op["type"].as_u64().unwrap_or(2)}]});
+                    guard("didChangeWatchedFiles", || rt.block_on(primary.notify("workspace/didChangeWatchedFiles", params)))?;
+                    // the file disappears again before anything else happens (a closed document must not be re-read from it)
+                    let _ = std::fs::remove_file(&path);
+                    stats.inc("notifications");
+                    stats.inc("fault.watched_file_event_for_open_document");
+                    stats.log(&format!("{opi}:watched:{d}"));
+                    // the server's copy must still be the editor's buffer
+                    if let Some(doc) = docs.get(&d) {
+                        let server = primary.text(&uri);
+                        if server.as_deref() != Some(doc.text.as_str()) {
+                            return Err(Violation::new(
+                                "text/diverged/after-watched-file-event",
+                                format!("op {opi} doc{d}: after a file-watcher event the server holds {:?}", server.as_deref().map(|t| t.chars().take(60).collect::<String>())),
+                            ));
+                        }
+                    }
+                    // and so must the analysis: compare the answers with the twin right away
+                    compare_all(&rt, &mut primary, &mut docs, &order, pull, opi, 0, (0, 999), &mut deferred, stats)?;
                 }
                 "save" => {
                     let Some(doc) = docs.get(&d).filter(|e| e.open) else { continue };
